@@ -845,7 +845,7 @@ func (g *gen) netSetValues() []Value {
 		}
 		invalid := i == n-1
 		if invalid {
-			labels["b"] = "white space"
+			profs = []string{"not a valid profile name!"}
 		}
 		desc := fmt.Sprintf("netset labels=%s nets=%v profiles=%v", descMap(labels), nets, profs)
 		vals = append(vals, Value{Desc: desc, Valid: !invalid, New: func() any {
